@@ -564,6 +564,29 @@ def imported_schema_tree(ctx):
                  {"stream": "import-schema-tree"}, got, want)
 
 
+def multiref_referrer_stays(ctx):
+    """MultiRef.replace_references moves content into the referring node: the referring node itself stays the node it
+    was - its name and namespace too, also when the independent element binds the referrer's prefix to something
+    else for its own content."""
+    from suds.bindings.multiref import MultiRef
+    from suds.sax.parser import Parser
+    doc = ('<e:Envelope xmlns:e="%s" xmlns:xsi="%s" xmlns:enc="%s"><e:Body><ns1:wrap xmlns:ns1="urn:a"><ns1:item href="#r"/>'
+           '<ns1:item href="#r"/><plain href="#r"/></ns1:wrap><multiRef id="r" enc:root="0" xmlns:ns1="urn:b" '
+           'xsi:type="ns1:T"><v>1</v></multiRef></e:Body></e:Envelope>' % (xmlread.ENV11, xmlread.XSI, xmlread.ENC)).encode()
+    body = Parser().parse(string=doc).root().getChild("Body")
+    ctx.case(("multiref-referrer",), True)
+    MultiRef().process(body)
+    wrap = body.children[0] if body.children else None
+    got = None if wrap is None else [[c.name, c.namespace()[1], [k.name for k in c.children],
+                                     (c.getAttribute("type").getValue() if c.getAttribute("type") is not None else None),
+                                     c.resolvePrefix("ns1")[1]] for c in wrap.children]
+    want = [["item", "urn:a", ["v"], "ns1:T", None], ["item", "urn:a", ["v"], "ns1:T", None], ["plain", None, ["v"], "ns1:T", "urn:b"]]
+    # (a referrer that uses the prefix for its own name cannot also take the binding over: reported per node as found)
+    if got is None or [g[:4] for g in got] != [w_[:4] for w_ in want] or got[2][4] != "urn:b":
+        ctx.fail("resolving a reference changed the referring node itself (name / namespace) or lost its content",
+                 {"stream": "multiref-referrer"}, got, want)
+
+
 def aliased_nodes(ctx):
     """Edits go by the object given, also in states the element API lets a caller build that are not trees: a node
     appended under two parents (append does not detach), two attribute objects with one qualified name."""
@@ -579,6 +602,21 @@ def aliased_nodes(ctx):
     if facts != [True, True, True]:
         ctx.fail("detachChildren did not detach exactly the children of the node it was called on", {"stream": "aliased"},
                  facts, [True, True, True])
+    # a node that names a parent without being among its children (made with Element(name, parent), or left over by
+    # prune()) is on its own after detach(): no parent, no inherited namespace
+    par = Element("par", ns=(None, "urn:d"))
+    orphan = Element("o", par)
+    kid = Element("empty")
+    par.append(kid)
+    par.prune()
+    ctx.case(("aliased", "detach-unlisted"), True)
+    facts = []
+    for n in (orphan, kid):
+        n.detach()
+        facts.append([n.parent is None, n.namespace()[1]])
+    if facts != [[True, None], [True, None]] or par.children != []:
+        ctx.fail("detach left a node attached to a parent that does not list it", {"stream": "aliased"}, facts,
+                 [[True, None], [True, None]])
     e = Element("e")
     first, second, other = Attribute("k", "1"), Attribute("k", "2"), Attribute("p:k", "3")
     for at in (first, other, second):
@@ -723,6 +761,7 @@ def run(ctx):
     doctor_rule_reused(ctx)
     aliased_nodes(ctx)
     imported_schema_tree(ctx)
+    multiref_referrer_stays(ctx)
     document_lookups(ctx)
     if runs:
         ctx.sample({"forest": runs[0]["forest"], "ops": runs[0]["ops"][:4]})
